@@ -365,6 +365,12 @@ func (m matcherSpec) build(w *world) bothMatcher {
 				// the callback itself records a snapshot (of something else): a re-entrant call
 				w.runNested()
 			}
+			if okErr == "okb" {
+				// unusual but legal: the replacement is handed back as a []byte (it is stored as a JSON string)
+				if str, isStr := decodeLit(payload).(string); isStr {
+					return []byte(str), nil
+				}
+			}
 			return decodeLit(payload), nil
 		})
 		if m.stmt {
